@@ -270,3 +270,73 @@ for _k in FIND_SRCS:
         CELLS.append(Cell(f'T2.find_{_w}[{_k}]', _mk_find(_k, _w), 'P', ['fst.fst.FST.find_contains_loc', 'fst.fst.FST.find_in_loc', 'fst.fst.FST.find_loc'],
                           f'carrier {FIND_SRCS[_k]!r}; query rectangle (ln, col, end_ln, end_col) symbolic within the source area (cols 0..12); allow_exact in {{False, True, "top"}}',
                           tier='quick' if _k in ('expr', 'callmix') else 'thorough', budget=600, per_path=60, out='other programs; rectangles outside the source', reset=pc.reset_globals))
+
+
+# ---------------------------------------------------------------------------------------------------------------- P3
+# pars(shared=None | False | True): "exactly the balanced grouping parentheses that belong to the node" — the three variants, asked in any order
+# (they are cached per node), against a tokenize count of the balanced '(' ... ')' pairs directly around the node
+import io as _io
+import itertools as _it
+import tokenize as _tk
+
+PARS_SRCS = {
+    'solo': 'r = call((a))\ns = f((i for i in j))\nclass c((b)): pass\nt = g(k for k in (m))\n',
+    'nest': 'u = ((a) + ((b)), (c))\nv = f(((d)), e, (g))\nmatch w:\n    case c((y)): pass\n',
+    'uni': 'é = f(("ñ"), ((ü)))  # ç\n',
+}
+_PERMS = list(_it.permutations((None, False, True)))
+
+
+def _enclosing_pairs(src, node):
+    """number of balanced parenthesis pairs DIRECTLY around the node's text (nothing but blanks between them and the node), by tokenize"""
+    toks = [t for t in _tk.generate_tokens(_io.StringIO(src).readline) if t.type not in (_tk.NL, _tk.NEWLINE, _tk.INDENT, _tk.DEDENT, _tk.COMMENT, _tk.ENDMARKER)]
+    lines = src.split('\n')
+    s_ = (node.lineno, len(lines[node.lineno - 1].encode()[:node.col_offset].decode()))
+    e_ = (node.end_lineno, len(lines[node.end_lineno - 1].encode()[:node.end_col_offset].decode()))
+    i0 = next(i for i, t in enumerate(toks) if t.start == s_)
+    i1 = next(i for i, t in enumerate(toks) if t.end == e_ and i >= i0)
+    n = 0
+    while i0 - n - 1 >= 0 and i1 + n + 1 < len(toks) and toks[i0 - n - 1].string == '(' and toks[i1 + n + 1].string == ')':
+        n += 1
+    return n
+
+
+def _mk_pars(key):
+    src = PARS_SRCS[key]
+
+    def fn(k: int, pi: int):
+        assume(0 <= pi < len(_PERMS))
+        perm = _PERMS[pc.pin(pi, 0, len(_PERMS) - 1)]
+        with pc.untraced():
+            root = FST(src, 'exec')
+            pc.reset_globals()
+            nodes = [n for n in ast.walk(root.a) if isinstance(n, (ast.expr, ast.pattern)) and hasattr(n, 'end_col_offset') and not isinstance(n, (ast.Starred,))]
+            ref_nodes = [n for n in ast.walk(ast.parse(src)) if isinstance(n, (ast.expr, ast.pattern)) and hasattr(n, 'end_col_offset') and not isinstance(n, (ast.Starred,))]
+        assume(0 <= k < len(nodes))
+        kk = pc.pin(k, 0, len(nodes) - 1)
+        f = nodes[kk].f
+        got = {}
+        for sh in perm:
+            p = f.pars() if sh is True else f.pars(shared=sh)
+            got[sh] = (tuple(p), getattr(p, 'n', 0))
+        with pc.untraced():
+            fresh = {}
+            for sh in (None, False, True):       # each variant asked FIRST on its own fresh tree
+                g = [n for n in ast.walk(FST(src, 'exec').a) if isinstance(n, (ast.expr, ast.pattern)) and hasattr(n, 'end_col_offset') and not isinstance(n, (ast.Starred,))][kk].f
+                p = g.pars() if sh is True else g.pars(shared=sh)
+                fresh[sh] = (tuple(p), getattr(p, 'n', 0))
+            tag = (key, type(nodes[kk]).__name__, kk, perm)
+            for sh in (None, False, True):
+                check(pc.R(got[sh]) == fresh[sh], 'pars.answer_depends_on_which_variant_was_asked_first', (tag, sh, pc.R(got[sh]), fresh[sh]))
+            n_any = _enclosing_pairs(src, ref_nodes[kk])
+            check(fresh[None][1] == n_any or fresh[None][1] == -1, 'pars.enclosing_count_differs_from_tokenize', (tag, fresh[None], n_any))     # -1: a solo generator-expression argument sharing the call's parentheses (CPython's extent includes them)
+            check(0 <= max(fresh[False][1], 0) <= n_any, 'pars.own_count_exceeds_enclosing_pairs', (tag, fresh[False], n_any))
+        cover('ok')
+    return fn
+
+
+for _k in PARS_SRCS:
+    CELLS.append(Cell(f'P3.pars_variants[{_k}]', _mk_pars(_k), 'P', ['fst.fst.FST.pars'],
+                      f'carrier {PARS_SRCS[_k]!r}: every expression / pattern node (symbolic ordinal) asked pars(shared=None), pars(shared=False), pars() in a symbolic order (6 permutations): '
+                      'each answer equals the answer of a fresh tree asked that variant first; the enclosing count equals the tokenize count of balanced pairs directly around the node',
+                      tier='quick', budget=600, per_path=60, reset=pc.reset_globals))
